@@ -44,7 +44,7 @@ def plan(tier):
     signed_pairs = [("int8_t", "int16_t"), ("int16_t", "int8_t"), ("int16_t", "int16_t"), ("int16_t", "int32_t"), ("int32_t", "int32_t"), ("int32_t", "int64_t"),
                     ("int64_t", "int64_t"), ("int8_t", "int32_t"), ("int64_t", "int16_t")]
     unsigned_pairs = [(a.replace("int", "uint"), b.replace("int", "uint")) for a, b in signed_pairs]
-    n_pairs = 40 if tier == "quick" else 300
+    n_pairs = 64 if tier == "quick" else 300
     tries = 0
     seen = set()
     # the narrow common reps admit only small integer factors (2147*k <= max): make sure they are present in every run
